@@ -13,7 +13,7 @@ C05 = importlib.import_module('C05')
 
 META = {
     'theorem_files': ['Props/C03.v'],
-    'theorems': [],
+    'theorems': ['C03_single_element_fault_localised', 'C03_extra_element_rejected'],
     'trusted_base': [
         'Coq 8.16.1 kernel; no native_compute',
         'Model/Pipeline.v and everything below it (tied by the correspondence runs of C02/C05/C07)',
@@ -79,17 +79,19 @@ def located_nodes(text):
     return rows
 
 
-def inject(rng, segs, d, rows):
+def inject(rng, segs, d, rows, force_kind=None, force_i=None):
     """one fault: -> (kind, new segs, expected (codes, segment line, element position or None), structural?) or None"""
     body = [i for i, r in enumerate(rows) if r[1] not in docgen.ENVELOPE and r[2] is not None]
     if not body:
         return None
-    for _try in range(30):
-        i = rng.choice(body)
+    for _try in range(30 if force_kind is None else 4):
+        i = rng.choice(body) if force_i is None else force_i
         line, sid, node, seg = rows[i]
         parts = segs[i].split(d[1])
         kind = rng.choice(['too_long', 'too_short', 'bad_code', 'bad_class', 'bad_date', 'bad_time', 'missing_required_ele',
-                           'not_used_ele', 'too_many_elements', 'unknown_segment', 'missing_required_segment'])
+                           'not_used_ele', 'too_many_elements', 'unknown_segment', 'missing_required_segment', 'syntax_note', 'syntax_note'])
+        if force_kind is not None:
+            kind = force_kind
         kids = node.children
         if sid in ('HL', 'LX', 'BHT') and kind not in ('too_many_elements',):
             continue            # numbering / hierarchy / transaction-type elements decide how OTHER segments are matched
@@ -134,6 +136,59 @@ def inject(rng, segs, d, rows):
             new = list(segs)
             new[i] = d[1].join(parts)
             return kind, new, (codes, line, k + 1, 'e'), False
+        if kind == 'syntax_note':
+            import confgen as _cg
+            notes = []
+            for nt in getattr(node, 'syntax', []) or []:
+                try:
+                    code, idxs = nt[0], [int(x) for x in nt[1:]]
+                except Exception:  # noqa
+                    continue
+                if code in ('P', 'C', 'R', 'E', 'L') and all(1 <= x <= len(kids) for x in idxs) and \
+                        all((not kids[x - 1].is_composite()) and kids[x - 1].usage == 'S' for x in idxs):
+                    notes.append((code, idxs))
+            if not notes:
+                continue
+            code, idxs = rng.choice(notes)
+            vals = parts[1:] + [''] * (len(kids) - len(parts) + 1)
+
+            def fill(x):
+                real = walk_gen.value_for
+                walk_gen.value_for = _cg.value_for
+                try:
+                    return _cg.value_for(rng, kids[x - 1])
+                finally:
+                    walk_gen.value_for = real
+            if code in ('P', 'C', 'L'):
+                # the first listed element present, the others absent; put the present one LAST where possible
+                first = idxs[0]
+                for x in idxs[1:]:
+                    vals[x - 1] = ''
+                if vals[first - 1] == '':
+                    vals[first - 1] = fill(first)
+                if rng.random() < 0.6:
+                    vals = vals[:first]          # nothing after it
+            elif code == 'R':
+                for x in idxs:
+                    vals[x - 1] = ''
+            elif code == 'E':
+                for x in idxs[:2]:
+                    if vals[x - 1] == '':
+                        vals[x - 1] = fill(x)
+            # other notes of the segment must not fire as well: keep only single-note changes
+            touched = set(idxs)
+            others = [n2 for n2 in notes if n2 != (code, idxs) and touched & set(n2[1])]
+            if others or len(getattr(node, 'syntax', [])) != len(notes) and any(touched & set(int(x) for x in n3[1:] if str(x).isdigit()) for n3 in node.syntax if (n3[0], [int(x) for x in n3[1:]]) != (code, idxs)):
+                continue
+            while vals and vals[-1] == '':
+                vals.pop()
+            if not vals:
+                continue
+            new = list(segs)
+            new[i] = d[1].join([parts[0]] + vals)
+            if new[i] == segs[i]:
+                continue
+            return kind + ':' + code, new, (['2'], line, None, 'e'), False
         if kind == 'too_many_elements':
             new = list(segs)
             while len(parts) < len(kids) + 1:
@@ -147,6 +202,8 @@ def inject(rng, segs, d, rows):
         if kind == 'missing_required_segment':
             if node.usage != 'R' or node.is_first_seg_in_loop():
                 continue
+            if (i > 0 and rows[i - 1][2] is node) or (i + 1 < len(rows) and rows[i + 1][2] is node):
+                continue            # a repeated required segment: deleting one instance leaves the document conformant
             new = list(segs)
             del new[i]
             return kind, new, (['3'], None, None, 's'), True
@@ -196,8 +253,12 @@ def run(ctx, report):
         rows = located_nodes(text)
         if rows is None or len(rows) != len(segs):
             continue
-        for fk in range(8 if thorough else 5):
-            inj = inject(rng, segs, d, rows)
+        plan = [(None, None)] * (8 if thorough else 5)
+        with_notes = [i for i, r in enumerate(rows) if r[2] is not None and r[1] not in docgen.ENVELOPE and getattr(r[2], 'syntax', None)]
+        rng.shuffle(with_notes)
+        plan += [('syntax_note', i) for i in with_notes[:(10 if thorough else 6)]]
+        for (fkind, fi) in plan:
+            inj = inject(rng, segs, d, rows, fkind, fi)
             if inj is None:
                 continue
             kind, new, (codes, line, elepos, lvl), structural = inj
